@@ -13,6 +13,7 @@ import AsmjitVerif.Lemmas.C06X32
 import AsmjitVerif.Spec.Machine
 import AsmjitVerif.Lemmas.C06ShuffleLoop
 import AsmjitVerif.Lemmas.C06ShuffleTop
+import AsmjitVerif.Lemmas.C06ShufflePhase3
 import AsmjitVerif.Lemmas.C06ShuffleSel
 namespace AsmjitVerif.C06
 open AsmjitVerif.CallConv AsmjitVerif.ABI
@@ -386,10 +387,36 @@ example :
   well-formed context instead of from `emitArgsAssignment`; (2) phase 1 (stack destinations) and phase 3 (stack sources) and the
   stack-argument (SA) variable. -/
 theorem shuffle_regphase_correct (p : C06S.Params) (hy : C06S.Hyp p) (e : Emit) (M : State) (hw : C06S.WF p e M)
-    (fuel : Nat) (e' : Emit) (h : shuffleLoop p.cfg p.n fuel e {} = .ok e') :
+    (fuel : Nat) (e' : Emit) (h : shuffleLoop p.cfg p.n fuel e {} = .ok e')
+    (hall : ∀ i, i < p.n → (e'.ctx.var i).cur.isReg = true) :
     ∃ M', run p.vis p.f p.cfg.arch p.M0 e'.out = some M' ∧
       ∀ i, i < p.n → destOk M' i (.reg (groupOf (p.out i).regType) (p.out i).regId) = true :=
-  C06S.regphase_correct p hy e M hw fuel e' h
+  C06S.regphase_correct p hy e M hw fuel e' h hall
+
+/-- **phase 3 (the load tail), every assignment**: from a well-formed context in which every register variable is done (what the
+    pass loop leaves), for any number of stack-resident variables, if the load loop returns `ok` then it needed one iteration and
+    the emitted list leaves EVERY destination register holding its variable in destination form – the loads hit only registers that
+    hold no variable (destinations are pairwise distinct) and read the slot the argument arrived in.  Hypotheses `C06S.Hyp3`: the
+    selected load produces destination form (`load`), no destination is the register the stack arguments are addressed through
+    (`nsa`), destinations pairwise distinct (`dd`), and that register addresses the incoming arguments (`saLoc`: `sp` without dynamic
+    alignment, the frame pointer with it – the moving SA variable is NOT covered).  The invariant `WF` is the generalised one
+    (register-resident variables `VarOK`, stack-resident variables `StkOK`); all phase-2 lemmas are proved for it, so phase 2 followed by
+    phase 3 composes.  Not yet linked to `emitArgsAssignment` (the `init_work_data` lemma still assumes register sources). -/
+theorem shuffle_phase3_correct (p : C06S.Params) (sa : Nat) (h3 : C06S.Hyp3 p sa) (e : Emit) (M : State) (hw : C06S.WF p e M)
+    (hd : C06S.AllRegDone p e) (e' : Emit) (ic' : Nat)
+    (h : (List.range p.n).foldlM (stackLoadVar p.cfg p.f sa) (e, 1) = .ok (e', ic')) :
+    ic' = 1 ∧ ∃ M', run p.vis p.f p.cfg.arch p.M0 e'.out = some M' ∧
+      ∀ i, i < p.n → destOk M' i (.reg (groupOf (p.out i).regType) (p.out i).regId) = true := by
+  obtain ⟨hic, ⟨M', hw'⟩, hd', hall, _⟩ := C06S.phase3_ok p sa h3 (List.range p.n) e M hw hd (fun j hj => List.mem_range.1 hj) e' ic' h
+  refine ⟨hic, M', hw'.runs, fun i hi => ?_⟩
+  have hr := hall i (List.mem_range.2 hi)
+  have hv := hw'.var i hi hr
+  obtain ⟨tok, hget, htv, _, hdn, _⟩ := hv.tok
+  obtain ⟨hreg, hdv⟩ := hdn (hd' i hi hr)
+  unfold destOk
+  have : M'.get (Loc.reg (groupOf (p.out i).regType) (p.out i).regId) = some tok := by
+    rw [← hv.out, ← hv.grp, ← hreg]; exact hget
+  simp [this, htv, hdv]
 
 /-- **`shuffle_correct`, register-only assignments, from the real entry point.**  For every assignment in which every argument
     sits in a register (id < 32, no two arguments in the same register – true of every FuncDetail) and is assigned a register of
@@ -449,7 +476,7 @@ theorem vals2_regOnly : C06S.RegOnly vals2 := by
   constructor
   · intro i hi
     have : i = 0 ∨ i = 1 := by simp [vals2] at hi; omega
-    rcases this with rfl | rfl <;> exact ⟨rfl, ⟨rfl, rfl, by decide, rfl, rfl⟩⟩
+    rcases this with rfl | rfl <;> exact ⟨rfl, ⟨rfl, rfl, rfl, by decide, rfl, rfl⟩⟩
   · intro i j hi hj hij
     have h1 : i = 0 ∨ i = 1 := by simp [vals2] at hi; omega
     have h2 : j = 0 ∨ j = 1 := by simp [vals2] at hj; omega
